@@ -33,6 +33,18 @@ def run(chk, replay=None):
                             'out_L_around': ioa[max(0, i - 150):i + 80].decode('utf-8', 'replace') if isinstance(ioa, bytes) else ioa,
                             'out_L2_around': iob[max(0, i - 150):i + 80].decode('utf-8', 'replace') if isinstance(iob, bytes) else iob}, tags=['interference'])
         chk.streams.append({'stream': 'paired lines', 'cfg': cfg.describe(), 'pairs': len(pairs)})
+        if ci == 0:
+            # the same question through the stream processor (scanner / reader path): long variants first
+            from vlib import streamlib
+            sel = sorted([p for p in pairs if p[0] != p[1]], key=lambda p: -len(p[1]))[:25] + [p for p in pairs if p[0] != p[1]][:15]
+            sel = [p for p in sel if len(p[0]) < 65000 and len(p[1]) < 65000]
+            sa = streamlib.impl_stream(cfg, [{'data': a + b'\n'} for a, _, _ in sel]); sb = streamlib.impl_stream(cfg, [{'data': b + b'\n'} for _, b, _ in sel])
+            for (a, b, _), (ca, oa, _), (cb, ob, _) in zip(sel, sa, sb):
+                chk.count(2)
+                if (ca, oa) != (cb, ob):
+                    chk.violate('stream outputs of two lines that differ only in sensitive literal contents differ', {'cfg': cfg.describe(), 'L': a.decode('utf-8', 'replace')[:800], 'L2_len': len(b), 'L2': b.decode('utf-8', 'replace')[:800],
+                                'out_L': oa[:200].decode('utf-8', 'replace'), 'out_L2': ob[:200].decode('utf-8', 'replace'), 'result_L': ca, 'result_L2': cb}, tags=['interference', 'stream'])
+            chk.streams.append({'stream': 'paired lines through the stream processor', 'pairs': len(sel), 'longest': max([len(p[1]) for p in sel] or [0])})
     # the class test the walkers may legitimately apply to a value: model matcher vs IsEmail
     rng = random.Random(chk.seed)
     cand = []
